@@ -379,7 +379,9 @@ var caseSeq int
 
 func runCase(res *vkit.Result, c Case, idx int) {
 	caseSeq++
-	tgt, err := vkit.NewHTTPTarget(false)
+	// every seventh generated description is shot by the http2/scenario gun (HTTP/2 over TLS)
+	h2 := idx < 100 && idx%7 == 3
+	tgt, err := vkit.NewHTTPTarget(h2)
 	if err != nil {
 		res.Inconclusive(true, "target: %v", err)
 		return
@@ -410,8 +412,12 @@ func runCase(res *vkit.Result, c Case, idx int) {
 	pool := map[string]any{"id": "p", "ammo": map[string]any{"type": "http/scenario", "file": base + ".yaml", "limit": limit},
 		"result": map[string]any{"type": "discard"}, "gun": map[string]any{"type": "http/scenario", "target": tgt.Addr},
 		"rps": map[string]any{"type": "const", "ops": 5000, "duration": "300s"}, "startup": map[string]any{"type": "once", "times": c.Instances}}
+	if h2 {
+		pool["gun"] = map[string]any{"type": "http2/scenario", "target": tgt.Addr}
+		res.Count("cases_with_http2_scenario_gun", 1)
+	}
 	ec, err := vkit.DecodePools(map[string]any{"pools": []any{pool}})
-	cs := map[string]any{"case": c, "yaml": yaml}
+	cs := map[string]any{"case": c, "yaml": yaml, "http2": h2}
 	if err != nil {
 		res.Violate("C15/valid-description-rejected", fmt.Sprintf("generated description rejected: %v", err), cs)
 		return
